@@ -107,6 +107,15 @@ func ClipToPaddedFace(a, b Point, f int, padding float64) (aUV, bUV r2.Point, in
 	aUVW := pointUVW(faceXYZtoUVW(f, a))
 	bUVW := pointUVW(faceXYZtoUVW(f, b))
 
+	// If neither endpoint is on the face's side of the sphere (w > 0), the edge
+	// (which is shorter than 180 degrees) stays in the hemisphere w <= 0 and
+	// cannot meet the face. Without this test the clipping below, which works
+	// with the edge's great circle, can accept the antipodal image of the edge
+	// when an endpoint is exactly antipodal to a corner of the face.
+	if aUVW.Z <= 0 && bUVW.Z <= 0 {
+		return aUV, bUV, false
+	}
+
 	// Padding is handled by scaling the u- and v-components of the normal.
 	// Letting R=1+padding, this means that when we compute the dot product of
 	// the normal with a cube face vertex (such as (-1,-1,1)), we will actually
